@@ -198,6 +198,34 @@ def structural_decoding(rep: Report, prog: Program, rid: str) -> None:
                       fi.where(r))
 
 
+def decoders_are_readers(rep: Report, prog: Program, resolver: Resolver) -> None:
+    """R15.12: decoding looks objects up (or interns structurally) - it declares nothing.  No path from a
+    __from_json__ (context-pruned: the arguments it actually passes decide the callee's arms) writes a name or
+    symbol registry or the names of an existing object; a decoder that forwards the payload's name into the
+    constructor re-registers it on every decode."""
+    from ..calls import Reach
+    from ..effects import NAMING_ATTRS, writes_in
+    entries = [q for q, f in prog.functions.items() if f.name == "__from_json__" and f.module == ""]
+    if len(entries) < 4:
+        raise AnalysisError(f"only {len(entries)} __from_json__ decoders found")
+    for e in entries:
+        reach = Reach(resolver, [e])
+        bad = []
+        for f in sorted(reach.reached):
+            fi = prog.functions[f]
+            for w in writes_in(prog, resolver, f):
+                if not reach.feasible_node(f, w.node):
+                    continue
+                kind = w.location.split(".")[-1]
+                if kind in ("_by_name", "_by_symbol") or (w.location in ("attr:names", "attr:symbols") and fi.name != "__init__") \
+                        or (w.location in ("attr:name", "attr:symbol") and fi.name not in ("__init__", "_register")):
+                    bad.append((f, w))
+        rep.check("R15.12", e, not bad,
+                  f"{e} reaches {bad[0][0] if bad else ''}, which writes {bad[0][1].location if bad else ''} "
+                  f"({' -> '.join(reach.path_to(bad[0][0])[-4:]) if bad else ''}): decoding a value registers or re-registers names - after a round trip "
+                  "the unit reports its names twice", prog.functions[e].where())
+
+
 def codec_hooks(rep: Report, prog: Program) -> None:
     """R15.11: json has three places a decoder can come from - `json._default_decoder` (used by json.load(fp), which
     passes object_hook=None explicitly), the `object_hook` default of json.loads, and an explicit cls= - and one
@@ -249,6 +277,7 @@ def run(rep: Report) -> None:
     rep.rule("R15.5", "Unit.__from_json__: base units resolve by name (every base unit is named); derived units rebuild "
              "through the interning constructor", floor=3)
     rep.rule("R03.7", "Quantity.__init__ (the reader of the stored unit text) keeps magnitude and unit as given (shared with C03)", floor=2)
+    rep.rule("R15.12", "no decoder writes a name/symbol registry or the names of an existing object", floor=4)
     rep.rule("R15.11", "codecs_installed sets and restores each implicit json hook: default encoder, default decoder, loads' object_hook default", floor=3)
     rep.rule("R15.10", "no memoised function on the decoding side reads the name/symbol registries (the unit text of a stored quantity must "
              "be resolved against the registrations of now, not of the first time it was seen)", floor=1)
@@ -450,6 +479,7 @@ def run(rep: Report) -> None:
                  consequence="a quantity in that unit comes back from JSON / the SQL composite as a quantity of another unit")
     structural_decoding(rep, prog, "R15.7")
     codec_hooks(rep, prog)
+    decoders_are_readers(rep, prog, resolver)
     from ..quantity_rules import check_quantity_ctor
     check_quantity_ctor(rep, prog, "R03.7")
     from ..quantity_rules import check_numeric_memo
